@@ -516,7 +516,7 @@ where
         Front::Poll => {
             let (r, w) = UnixStream::pair().expect("pair");
             let fd = r.as_raw_fd();
-            match SignalDelivery::with_pipe(r, w, exf, watched.iter()) {
+            match SignalDelivery::with_pipe(r, w, exf, watched.iter().chain(watched.iter().take(1))) {
                 Ok(d) => (Inst::Poll(d), fd),
                 Err(e) => {
                     tot.bad10.push(format!("with_pipe failed: {}", e));
@@ -524,7 +524,8 @@ where
                 }
             }
         }
-        _ => match SignalsInfo::with_exfiltrator(watched.iter(), exf) {
+        // (the first watched number is listed twice: that must not register it twice)
+        _ => match SignalsInfo::with_exfiltrator(watched.iter().chain(watched.iter().take(1)), exf) {
             Ok(s) => {
                 let after = crate::sig::open_fds();
                 let new: Vec<c_int> = after.into_iter().filter(|f| !fds_before.contains(f)).collect();
